@@ -24,14 +24,18 @@ func (prop) Run(c core.Case) core.Outcome {
 	e := ue.Evaluate(in, ops)
 	out := core.Outcome{Class: e.Class(), Key: e.Key()}
 	out.Checks = append(out.Checks, e.ModelChecks(false)...)
+	out.Checks = append(out.Checks, createFvChecks(e)...) // sequences with create-fv: model of wp-c02b (createfv.go)
 	out.Checks = append(out.Checks, e.InputValid())
 	out.Checks = append(out.Checks, e.ChecksC02()...)
 	return out
 }
 
 func (prop) Gen(r *rand.Rand, tier string) []core.Case {
+	// the create-fv cases come last: the random stream of the older generators is unchanged
 	if tier == "thorough" {
-		return append(append(append(ue.ExhaustiveCases(3), append(ue.WrapperCases(), ue.TailCases()...)...), bigCases(tier)...), ue.RandomCases(r, 20000, true)...)
+		cs := append(append(append(ue.ExhaustiveCases(3), append(ue.WrapperCases(), ue.TailCases()...)...), bigCases(tier)...), ue.RandomCases(r, 20000, true)...)
+		return append(cs, createFvCases(r, 1500)...)
 	}
-	return append(append(append(ue.ExhaustiveCases(1), append(ue.WrapperCases(), ue.TailCases()...)...), bigCases(tier)...), ue.RandomCases(r, 400, true)...)
+	cs := append(append(append(ue.ExhaustiveCases(1), append(ue.WrapperCases(), ue.TailCases()...)...), bigCases(tier)...), ue.RandomCases(r, 400, true)...)
+	return append(cs, createFvCases(r, 120)...)
 }
